@@ -256,8 +256,13 @@ class DispatchLoop(Contract):
         disp = env['dispatches']
         L = dlen(disp)
         j, t, t2 = z3.Ints('ij it it2')
-        items = [
-            ('i=position', env['i'] == k),
+        items = []
+        if isinstance(k, int):     # initiation: does the code keep its own position counter `i`?
+            st.has_counter = env.has('i') and isinstance(env['i'], int)
+        if getattr(st, 'has_counter', False):
+            # only when the code keeps its own position counter (a loop-carried local)
+            items.append(('i=position', env['i'] == k))
+        items += [
             ('pending+flushed=appended', z3.And(0 <= g.n_flushed, g.n_flushed <= g.n_app, L == g.n_app - g.n_flushed)),
             ('appended=all-non-None-so-far', g.n_app == st.cnt(k)),
             ('appended-are-earlier-non-None-transcripts-in-order',
@@ -365,7 +370,7 @@ class DispatchLoop(Contract):
 # REAL callVariant on the repository's demo inputs.
 # ----------------------------------------------------------------------------
 from pyvc.native import NativeCheck
-import os, tempfile, shutil, subprocess, sys, json
+import os, tempfile, shutil, subprocess, sys, json, types
 
 
 class NativePairedRuns(NativeCheck):
@@ -494,3 +499,145 @@ class NativePairedRuns(NativeCheck):
 
 
 NATIVE = [NativePairedRuns()]
+
+
+class NativeDispatchHarness(NativeCheck):
+    """The REAL call_variant_peptide executed with its environment replaced by recording stubs (the
+    concrete counterpart of the assumed contracts of DispatchLoop): replay target for its obligations."""
+    name = 'dispatch_harness'
+    props = ('C06', 'C07', 'C04')
+    functions = (f'{CVP}:call_variant_peptide',)
+    bounded_for = ''
+    bound = ('replay harness: N <= 5 transcripts, every skip pattern (2^N), threads 1..4; the per-transcript work is a stub, '
+             'so this exercises exactly the batching / flush / tally / table-guard logic that DispatchLoop proves')
+    quick_budget_s = 40
+    thorough_budget_s = 120
+
+    def cases(self, rng, tier):
+        import itertools
+        for n in range(0, 6 if tier == 'thorough' else 5):
+            for pat in itertools.product([0, 1], repeat=n):
+                for th in (1, 2, 3, 4):
+                    yield dict(skip=list(pat), threads=th, fail=[(i * 7 + th) % 3 == 0 for i in range(n)])
+
+    def from_model(self, model):
+        from . import realobj
+        n = realobj.model_int(model, 'N')
+        th = realobj.model_int(model, 'threads')
+        if n is None or th is None or not (0 <= n <= 8) or not (1 <= th <= 8):
+            return None
+        f = model.get('isnone')
+        skip = []
+        for i in range(n):
+            v = (f.get(str(i), f.get('else')) if isinstance(f, dict) else 'False')
+            skip.append(1 if str(v) == 'True' else 0)
+        return dict(skip=skip, threads=th, fail=[False] * n)
+
+    def nontrivial(self, inp):
+        return (tuple(inp['skip']), inp['threads']) if any(inp['skip']) and inp['threads'] > 1 else None
+
+    def check(self, inp):
+        import importlib, sys as _sys, tempfile, os, argparse, contextlib
+        importlib.import_module('moPepGen.cli')
+        M = _sys.modules['moPepGen.cli.call_variant_peptide']
+        n = len(inp['skip'])
+        txs = [f'TX{i}' for i in range(n)]
+        processed, added, events = [], [], []
+        tmp = tempfile.mkdtemp(prefix='pyvc_c06h_')
+
+        class Rank(dict):
+            pass
+
+        class FakeCaller:
+            def __init__(s, args):
+                s.args = args
+                s.threads = inp['threads']
+                s.cleavage_params = object()
+                s.graph_output_dir = None
+                s.peptide_table_output_path = os.path.join(tmp, 'table.txt')
+                s.output_path = os.path.join(tmp, 'out.fasta')
+                s.variant_record_pool = types.SimpleNamespace(gvf_files=[], pointers={t: [] for t in reversed(txs)})
+                s.reference_data = types.SimpleNamespace(
+                    anno=types.SimpleNamespace(get_transcript_rank=lambda: {t: i for i, t in enumerate(txs)}),
+                    canonical_peptides=set())
+                s.tally = None
+                s.logger = None
+            def load_reference(s):
+                pass
+            def create_in_disk_variant_pool(s):
+                pass
+            def gather_data_for_call_variant(s, tx_id, pool):
+                i = txs.index(tx_id)
+                if inp['skip'][i]:
+                    return None
+                return {'tx_id': tx_id}
+            def write_dgraphs(s, *a):
+                pass
+            def write_pgraphs(s, *a):
+                pass
+
+        class FakeOpener:
+            def __init__(s, pool):
+                s.pool = pool
+            def __enter__(s):
+                return s.pool
+            def __exit__(s, *a):
+                return False
+
+        class FakeTable:
+            def __init__(s, handle):
+                s.index = {}
+            def write_header(s):
+                events.append('header')
+            def is_valid(s, seq, canonical_peptides, cleavage_params):
+                return not seq.endswith('!')
+            def add_peptide(s, seq, anno):
+                added.append((seq, anno))
+                s.index[seq] = 1
+            def write_fasta(s, path):
+                events.append('fasta')
+
+        def fake_reducer(dispatch):
+            tx = dispatch['tx_id']
+            processed.append(tx)
+            i = txs.index(tx)
+            flags = (not inp['fail'][i], True, True)
+            return ({f'PEP{i}': ['a', 'b'], f'BAD{i}!': ['c']}, tx, None, None, flags)
+
+        class FakePool:
+            def __init__(s, ncpus=None):
+                pass
+            def map(s, fn, xs):
+                return [fn(x) for x in xs]
+
+        tallies = {}
+        orig = dict(VariantPeptideCaller=M.VariantPeptideCaller, caller_reducer=M.caller_reducer, ParallelPool=M.ParallelPool,
+                    Opener=M.seqvar.VariantRecordPoolOnDiskOpener, Table=M.svgraph.VariantPeptideTable, psm=M.common.print_start_message,
+                    log=M.TallyTable.log)
+        M.VariantPeptideCaller, M.caller_reducer, M.ParallelPool = FakeCaller, fake_reducer, FakePool
+        M.seqvar.VariantRecordPoolOnDiskOpener, M.svgraph.VariantPeptideTable = FakeOpener, FakeTable
+        M.common.print_start_message = lambda a: None
+        M.TallyTable.log = lambda s: tallies.update(failed=dict(s.n_transcripts_failed), processed=s.n_transcripts_processed, total=s.n_total_peptides)
+        try:
+            M.call_variant_peptide(argparse.Namespace())
+        finally:
+            M.VariantPeptideCaller, M.caller_reducer, M.ParallelPool = orig['VariantPeptideCaller'], orig['caller_reducer'], orig['ParallelPool']
+            M.seqvar.VariantRecordPoolOnDiskOpener, M.svgraph.VariantPeptideTable = orig['Opener'], orig['Table']
+            M.common.print_start_message, M.TallyTable.log = orig['psm'], orig['log']
+            import shutil
+            shutil.rmtree(tmp, ignore_errors=True)
+        want = [t for i, t in enumerate(txs) if not inp['skip'][i]]
+        if processed != want:
+            return dict(observed=dict(processed=processed), expected=dict(processed=want))
+        wadd = [(f'PEP{txs.index(t)}', x) for t in want for x in ('a', 'b')]
+        if added != wadd:
+            return dict(observed=dict(added=added[:6]), expected=dict(added=wadd[:6]))
+        nfail = sum(1 for i, t in enumerate(txs) if not inp['skip'][i] and inp['fail'][i])
+        if tallies.get('failed', {}).get('variant') != nfail or tallies.get('processed') != len(want) or tallies.get('total') != 2 * len(want):
+            return dict(observed=tallies, expected=dict(variant_failed=nfail, processed=len(want), total=2 * len(want)))
+        if events != ['header', 'fasta']:
+            return dict(observed=events, expected=['header', 'fasta'])
+        return None
+
+
+NATIVE = [NativePairedRuns(), NativeDispatchHarness()]
